@@ -265,6 +265,8 @@ class PropertyDescriptor(Symbol):
             self._bind_owner_if_container_type(attr, owner=obj)
             setattr(obj, self.private_attr_name, attr)
         if isinstance(attr, MonitoredContainer):
+            # like a read access: the container may last have been reached through a (shallow) copy of the instance
+            self._bind_owner_if_container_type(attr, owner=obj)
             # copy first: the assigned value may be the monitored container itself
             # (obj.field = obj.field, obj.field += [...]), and keep the order and repetitions of lists
             new_values = make_list(value)
